@@ -28,6 +28,7 @@ def make_config(seed, tier="quick"):
     thorough = tier == "thorough"
     out0 = r.choice([1, 1, 2, 7, 100, 2**31, 10**12])
     return dict(
+        u8=random.Random(seed ^ 0xC05A8).random() < 0.3,  # non-ASCII values in application messages (separate stream)
         seed=seed,
         eut_role=r.choice(["acceptor", "initiator"]),
         hb=r.choice([2, 5, 30, 1000]),
@@ -148,7 +149,10 @@ class OutboundSim(PeerSim):
     def build_msg(self, t, k):
         mark = f"S-{k}"
         if t in ("D", "8", "U7"):
-            return FIXMessage(t, {11: mark, 55: "NQ", 54: "2", 38: k + 1, 44: "7.5"})
+            m = FIXMessage(t, {11: mark, 55: "NQ", 54: "2", 38: k + 1, 44: "7.5"})
+            if self.cfg.get("u8"):
+                m[58] = f"n\u00f6te {k} \u20ac\u4e2d\U0001f600"
+            return m
         if t == "D34":
             # a new message object that happens to carry a MsgSeqNum already (copied from a received or
             # journaled message): it is still a new message and takes the next number
